@@ -15,6 +15,7 @@ import (
 	"strconv"
 	"strings"
 	"sync"
+	"syscall"
 
 	jmespath "github.com/jmespath/go-jmespath"
 
@@ -46,7 +47,7 @@ func (c *shardCtx) journal(what string) {
 	os.WriteFile(c.journalPath, []byte(what), 0o644)
 }
 func (c *shardCtx) add(k string, d int64) { c.res.Counters[k] += d }
-func (c *shardCtx) thorough() bool   { return c.tier == "thorough" }
+func (c *shardCtx) thorough() bool        { return c.tier == "thorough" }
 func (c *shardCtx) report(v harness.Violation) {
 	for i := range c.res.Violations {
 		if c.res.Violations[i].Signature == v.Signature {
@@ -155,6 +156,15 @@ func main() {
 						cause = l
 						break
 					}
+				}
+				// killed from outside (out-of-memory killer, timeout) or out of memory: no verdict, not a violation
+				if ee, ok := err.(*exec.ExitError); ok && !strings.Contains(stderr, "fatal error:") && !strings.Contains(stderr, "panic:") {
+					if ws, ok := ee.Sys().(syscall.WaitStatus); ok && ws.Signaled() {
+						cause = "TOOLING-ERROR: worker killed by signal " + ws.Signal().String() + " (resource exhaustion or external kill), no verdict"
+					}
+				}
+				if strings.Contains(cause, "out of memory") || strings.Contains(cause, "cannot allocate memory") {
+					cause = "TOOLING-ERROR: worker ran out of memory, no verdict: " + cause
 				}
 				if strings.HasPrefix(cause, "TOOLING-ERROR") {
 					failed = append(failed, fmt.Sprintf("shard %d: %s", i, cause))
